@@ -16,7 +16,7 @@ META = {
     ),
     "anchors": ["abelian_core.AbelianArray.copy", "abelian_core.AbelianArray.copy_with", "fermionic_core.FermionicArray.copy", "fermionic_core.FermionicArray.copy_with", "fermionic_core.FermionicArray.transpose", "block_core.BlockBase._binary_blockwise_op", "fermionic_core.tensordot_fermionic", "fermionic_core.FermionicArray.phase_sync"],
     "floors": {
-        "quick": {"evaluations": 30000, "distinct_nontrivial": 5000, "tables": {"monitor/operand-snapshots": 15000, "monitor/inplace-vs-outofplace": 3000, "monitor/aliasing-probes": 3000, "monitor/quiescent-sweep": 1500, "kind/fermionic": 8000, "feature/mixed-dtype-operand": 300}},
+        "quick": {"evaluations": 30000, "distinct_nontrivial": 5000, "tables": {"monitor/operand-snapshots": 15000, "monitor/inplace-vs-outofplace": 3000, "monitor/aliasing-probes": 3000, "monitor/quiescent-sweep": 1500, "kind/fermionic": 8000, "feature/mixed-dtype-operand": 300, "wide/fused-leg-charges>=17": 300}},
         "thorough": {"evaluations": 800000, "distinct_nontrivial": 80000},
     },
     "wall": {"quick": 100, "thorough": 1700},
@@ -234,6 +234,66 @@ def run_program(ctx, rng):
     ctx.count("programs", "completed")
 
 
+def wide_legs(ctx, rng):
+    """Operands whose fused legs carry 17-40 charges (U1 / U1U1 legs with 5-9 charges each,
+    fused): out-of-place operations that drop only one or two of those charges must still
+    leave the operand - including the sub-index tables of its fused legs - untouched."""
+    sr = ctx.sr
+    sym = rng.choice(["U1", "U1", "U1U1"])
+    ferm = rng.random() < 0.4
+    if sym == "U1":
+        mk = lambda: sr.BlockIndex({c: 1 for c in range(-rng.randint(4, 5), rng.randint(4, 5) + 1)}, dual=rng.random() < 0.5)
+    else:
+        mk = lambda: sr.BlockIndex({(a, b): 1 for a in range(-1, 2) for b in range(-1, 2)}, dual=rng.random() < 0.5)
+    # (four wide legs: the charges a fused pair can take are limited by what the rest allows)
+    idx = [mk(), mk(), mk(), mk()]
+    x = gen.make_array(sr, rng, sym, idx, fermionic=ferm, values=gen.Values(rng, "int"), sparsity=rng.choice([0.0, 0.3]), exotic=False)
+    o = ctx.call(lambda: x.fuse((0, 1), (2, 3)) if rng.random() < 0.5 else x.fuse((0, 1)).fuse((1, 2)))
+    if not o.ok or not o.value.blocks:
+        return
+    f = o.value
+    ncharges = len(f.indices[0].chargemap)
+    ctx.count("wide", "fused-leg-charges>=17" if ncharges >= 17 else "fused-leg-charges<17")
+    # partner on the conjugate of the fused leg, lacking one or two of its charges
+    cj = f.indices[0].conj()
+    lack = rng.sample(sorted(cj.chargemap), min(rng.randint(1, 2), len(cj.chargemap) - 1))
+    pidx = sr.BlockIndex({c: d for c, d in cj.chargemap.items() if c not in lack}, dual=cj.dual)
+    y = gen.make_array(sr, rng, sym, [pidx, gen.rand_index(sr, rng, sym, maxc=2, maxd=2)], fermionic=ferm, values=gen.Values(rng, "int"), kind="static", sparsity=0.0, exotic=False, label=991)
+    vec = sr.BlockVector({c: np.ones(d) for c, d in f.indices[0].chargemap.items() if c not in lack})
+    ops = [
+        ("tensordot-blockwise", lambda a, b: sr.tensordot(a, b, axes=([0], [0]), mode="blockwise", preserve_array=True)),
+        ("tensordot-fused", lambda a, b: sr.tensordot(a, b, axes=([0], [0]), mode="fused", preserve_array=True)),
+        ("tensordot-reversed", lambda a, b: sr.tensordot(b, a, axes=([0], [0]), preserve_array=True)),
+        ("align_axes", lambda a, b: a.align_axes(b, ((0,), (0,)))),
+        ("multiply_diagonal", lambda a, b: a.multiply_diagonal(vec, 0)),
+        ("multiply_diagonal-then-sync", lambda a, b: a.multiply_diagonal(vec, 0).sync_charges()),
+        ("conj-tensordot", lambda a, b: sr.tensordot(a.conj(), b.conj(), axes=([0], [0]), preserve_array=True)),
+        ("transpose-tensordot", lambda a, b: sr.tensordot(a.transpose((1, 0)), b, axes=([1], [0]), preserve_array=True)),
+        ("self-contraction", lambda a, b: sr.tensordot(a, a.conj(), axes=([1], [1]), preserve_array=True)),
+    ]
+    rng.shuffle(ops)
+    for name, fn in ops[:4]:
+        before = [snapshot(f), snapshot(y)]
+        o2 = ctx.call(fn, f, y)
+        ctx.evaluated()
+        ctx.count("monitor", "operand-snapshots")
+        ctx.count("wide-op", name)
+        after = [snapshot(f), snapshot(y)]
+        for k, (b_, a_) in enumerate(zip(before, after)):
+            if b_ != a_:
+                ctx.violation(f"operand-modified:{name}", f"{name} ({'raised ' + o2.excname if not o2.ok else 'returned'}) changed operand #{k} (fused leg with {ncharges} charges): {snap_diff(b_, a_)}", {"op": name, "x": describe(f), "lacking": repr(lack)})
+                return
+        # the operand must still unfuse to what it was fused from
+        o3 = ctx.call(lambda: f.unfuse(0))
+        if not o3.ok:
+            ctx.violation(f"operand-modified:{name}", f"after {name} the operand can no longer be unfused: {o3.exc!r}", {"op": name, "x": describe(f), "lacking": repr(lack)})
+            return
+        if ncharges >= 17:
+            ctx.nontrivial(("wide", name, sym, ncharges, len(lack)))
+
+
 def run(ctx):
     for _, rng in ctx.cases("programs", ctx.budget(34000, 700000)):
         ctx.run_case(run_program, ctx, rng)
+    for _, rng in ctx.cases("wide-legs", ctx.budget(2500, 50000)):
+        ctx.run_case(wide_legs, ctx, rng)
